@@ -253,6 +253,14 @@ func c16Model(flat []int, kind Kind, client bool) []string {
 }
 
 func c16Run(k c16Case) (got []string, flat []int, err error, g GuardResult) {
+	got, _, flat, err, g = c16RunTwice(k)
+	return
+}
+
+// c16RunTwice builds the option values once and constructs two clients /
+// handlers from the SAME values (as generated code does for every procedure of
+// a service); it returns the event log of a call through each.
+func c16RunTwice(k c16Case) (first, second []string, flat []int, err error, g GuardResult) {
 	var log []string
 	copts, hopts, flat := k.build(&log)
 	cfg := Cfg{Proto: k.Proto, Comp: CompNone, Kind: k.Kind, HTTP: 2}
@@ -270,34 +278,45 @@ func c16Run(k c16Case) (got []string, flat []int, err error, g GuardResult) {
 		}
 		return s.Send(&BV{Value: []byte{9}})
 	}
-	var h *connect.Handler
-	if k.Client {
-		h = NewHandler(k.Kind, func(ctx context.Context, s HStream) error {
-			if k.Kind == KUnary {
-				log = append(log, "core")
-			}
-			return impl(ctx, s)
-		})
-	} else {
-		h = NewHandler(k.Kind, impl, hopts...)
-	}
-	tr := &memhttp.Transport{Handler: h, Proto: 2, SyncCloseReq: true}
-	var cl *connect.Client[BV, BV]
-	if k.Client {
-		cl = NewClient(tr, cfg, copts...)
-	} else {
-		cl = NewClient(tr, cfg)
-	}
-	var res CallResult
-	g = Guarded(func() {
-		if k.Client && k.Kind != KUnary {
-			// streaming client: Send, then the boundary marker, then Receive
-			res = c16StreamCall(cl, k.Kind, &log)
+	for round := 0; round < 2; round++ {
+		log = nil
+		var h *connect.Handler
+		if k.Client {
+			h = NewHandler(k.Kind, func(ctx context.Context, s HStream) error {
+				if k.Kind == KUnary {
+					log = append(log, "core")
+				}
+				return impl(ctx, s)
+			})
 		} else {
-			res = RunCall(context.Background(), cl, k.Kind, [][]byte{{1}}, nil)
+			h = NewHandler(k.Kind, impl, hopts...)
 		}
-	}, tr)
-	return log, flat, res.Err, g
+		tr := &memhttp.Transport{Handler: h, Proto: 2, SyncCloseReq: true}
+		var cl *connect.Client[BV, BV]
+		if k.Client {
+			cl = NewClient(tr, cfg, copts...)
+		} else {
+			cl = NewClient(tr, cfg)
+		}
+		var res CallResult
+		g = Guarded(func() {
+			if k.Client && k.Kind != KUnary {
+				// streaming client: Send, then the boundary marker, then Receive
+				res = c16StreamCall(cl, k.Kind, &log)
+			} else {
+				res = RunCall(context.Background(), cl, k.Kind, [][]byte{{1}}, nil)
+			}
+		}, tr)
+		if g.Hung || g.Panicked || res.Err != nil {
+			return log, log, flat, res.Err, g
+		}
+		if round == 0 {
+			first = append([]string(nil), log...)
+		} else {
+			second = append([]string(nil), log...)
+		}
+	}
+	return first, second, flat, nil, g
 }
 
 // c16StreamCall performs Send(s), marks "core", then Receives, so that the
@@ -341,10 +360,7 @@ func c16StreamCall(cl *connect.Client[BV, BV], kind Kind, log *[]string) CallRes
 }
 
 func c16Cases(thorough bool) []c16Case {
-	maxN := 3
-	if thorough {
-		maxN = 4
-	}
+	maxN := 4
 	var out []c16Case
 	for n := 0; n <= maxN; n++ {
 		for mask := 0; mask < 1<<n; mask++ {
@@ -372,7 +388,7 @@ func c16Cases(thorough bool) []c16Case {
 					for b := 0; b < maxB; b++ {
 						nb := 1 + popcount(b)
 						var wraps [][]int
-						if nb <= 2 {
+						if nb <= 2 && (thorough || n < 4) {
 							for w1 := 0; w1 < 5; w1++ {
 								if nb == 1 {
 									wraps = append(wraps, []int{w1})
@@ -388,6 +404,9 @@ func c16Cases(thorough bool) []c16Case {
 							}
 						}
 						if empty >= 0 && !thorough && (b != 0 || n > 2) {
+							continue
+						}
+						if !thorough && n == 4 && popcount(b) > 1 {
 							continue
 						}
 						for _, w := range wraps {
@@ -410,12 +429,12 @@ func popcount(x int) int {
 }
 
 func c16Check(c *ev.Collector, k c16Case) {
-	got, flat, err, g := c16Run(k)
+	got, second, flat, err, g := c16RunTwice(k)
 	want := c16Model(flat, k.Kind, k.Client)
 	tags := []string{"kind=" + k.Kind.String(), map[bool]string{true: "side=client", false: "side=handler"}[k.Client]}
-	c.AddTransitions(int64(len(got)))
-	c.AddStates(int64(len(got)) + 1)
-	c.AddTraces(1)
+	c.AddTransitions(int64(len(got) + len(second)))
+	c.AddStates(int64(len(got)+len(second)) + 1)
+	c.AddTraces(2)
 	switch {
 	case g.Hung || g.Panicked:
 		c.Violation("TestC16", "terminates", "hang-or-panic", tags, k, "%s: hung=%v panic=%v\n%s", k.key(), g.Hung, g.Panic, g.Stack)
@@ -426,6 +445,9 @@ func c16Check(c *ev.Collector, k c16Case) {
 		c.Outcome("violation")
 	case strings.Join(got, " ") != strings.Join(want, " "):
 		c.Violation("TestC16", "onion-order", "mismatch", tags, k, "%s: event log\n    %v\n  reference onion of the flat list %v\n    %v", k.key(), got, flat, want)
+		c.Outcome("violation")
+	case strings.Join(second, " ") != strings.Join(want, " "):
+		c.Violation("TestC16", "onion-order", "mismatch-on-reuse", append(tags, "options-reused"), k, "%s: a second client/handler built from the same option values logs\n    %v\n  reference onion of the flat list %v\n    %v", k.key(), second, flat, want)
 		c.Outcome("violation")
 	default:
 		c.Outcome("ok")
@@ -446,7 +468,7 @@ func TestC16(t *testing.T) {
 		return
 	}
 	thorough := ev.Thorough()
-	c.Bound("max_list_length", map[bool]int{false: 3, true: 4}[thorough])
+	c.Bound("max_list_length", 4)
 	cases := c16Cases(thorough)
 	idx := 0
 	for _, base := range cases {
